@@ -249,3 +249,26 @@ pub fn ecdsa_sig_to_der_b64(sig_b64: &str) -> Option<String> {
     der.extend(body);
     Some(b64e(&der))
 }
+
+/// Text whose multi-byte characters sit at every small byte offset, optionally right after a character that
+/// text-processing code likes to look for (`%`, `\`, `&`, `+`, `:`, `/`, `.`, `=`, `~`): byte-offset slicing,
+/// fixed-width windows and "skip n bytes after the marker" loops all panic or mis-slice on one of these, while
+/// ASCII-only inputs never notice.
+pub fn boundary_text(r: &mut crate::rng::Rng) -> String {
+    const ASCII: &str = "ES256https://a.example/none";
+    const WIDE: [char; 9] = ['\u{e9}', '\u{17f}', '\u{b2}', '\u{20ac}', '\u{2026}', '\u{ffff}', '\u{1f600}', '\u{10000}', '\u{10ffff}'];
+    const MARK: [&str; 10] = ["", "%", "\\", "&", "+", ":", "/", ".", "=", "~"];
+    let start = r.below(20) as usize;
+    let pre = r.below(9) as usize;
+    let mut s: String = ASCII.chars().cycle().skip(start).take(pre).collect();
+    s.push_str(MARK[r.below(MARK.len() as u64) as usize]);
+    let gap = r.below(3) as usize;
+    s.extend(ASCII.chars().skip(start % 7).take(gap));
+    s.push(WIDE[r.below(WIDE.len() as u64) as usize]);
+    if r.chance(30) {
+        s.push(WIDE[r.below(WIDE.len() as u64) as usize]);
+    }
+    let post = r.below(5) as usize;
+    s.extend(ASCII.chars().skip(2).take(post));
+    s
+}
